@@ -174,9 +174,10 @@ static void call_queued(Instance& f, int kind, int dest) {
     default: f.schedule((StateID) dest); break;
   }
 }
-static bool compatible(int d1, int d2) {       // no composite region must hold two different prongs for both destinations
+static bool compatible(int d1, int d2) {       // can the earlier request d1 still hold after the later request d2?
   for (int a = d1; a > 0; a = VM_SPEC[a].parent) for (int b = d2; b > 0; b = VM_SPEC[b].parent)
-    if (VM_SPEC[a].parent == VM_SPEC[b].parent && VM_SPEC[VM_SPEC[a].parent].kind == K_COMPO && a != b) return false;
+    if (VM_SPEC[a].parent == VM_SPEC[b].parent && VM_SPEC[VM_SPEC[a].parent].kind == K_COMPO && a != b) return false;   // a composite region would need two prongs
+  if (d1 != d2 && spec_is_ancestor_or_self(d2, d1)) return false;   // the later request re-targets a region that contains the earlier destination
   return true;
 }
 static void body_queued2(int k1, int d1, int k2, int d2) {
@@ -322,7 +323,10 @@ static void body_substitute_forever(unsigned cfg, int dest, int guard_state, int
   g_sub_guard = guard_state; g_sub_is_entry = is_entry != 0; g_sub_dest = dest; g_sub_forever = true;
   Snapshot old; snap(f, old);
   f.immediateChangeTo((StateID) dest);
-  post_invariant(f);
+  VASSERT(C01, inv_config(f), "the configuration is well-formed after the step");
+  VASSERT(C03, inv_monitor(f), "entered states == active states after the step");
+  if (!g_sub_done) VASSERT(C01, inv_quiescent(f), "nothing is left half-applied after the step");
+  else VASSERT(C04, f._core.requests.count() == 0, "when processing stops at the substitution limit no request is left behind in the queue");
   if (g_sub_done) {
     VASSERT(C04, g_sub_guard_calls <= Instance::SUBSTITUTION_LIMIT, "processing stops after at most the substitution limit of rounds");
     VASSERT(C04, same_config(f, old) && no_lifecycle(), "a transition vetoed in every round never takes effect");
@@ -378,10 +382,10 @@ static void body_history_replay(int kind, int dest) {
   Snapshot old; snap(a, old);
   if (kind == 6) { a.schedule((StateID) dest); a.update(); } else call_immediate(a, kind, dest);
   const auto& hist = a.previousTransitions();
+  if (!g_round_cancelled) VREACH("approved step");
   if (g_round_cancelled) {
     VASSERT(C09, kind == 6 || hist.count() == 0, "nothing approved: the history of the step is empty");
   } else if (kind != 6) {
-    VREACH("approved request");
     VASSERT(C09, hist.count() == 1, "one approved request: the history holds exactly that request");
     if (hist.count() == 1) VASSERT(C09, hist[0].destination == (StateID) dest && (int) hist[0].type == kind, "the history entry is the request that was applied");
   }
@@ -402,6 +406,28 @@ static void body_history_replay(int kind, int dest) {
     VASSERT(C09, r._core.registry.compoActive[c] == after.active[c], "replaying the history reproduces the same active configuration");
     if (kind != 6) VASSERT(C09, r._core.registry.compoResumable[c] == after.resumable[c], "single round without scheduling: replay reproduces the resumable sub-states too");
   }
+}
+// a step with TWO approved rounds: two queued requests, and an entry guard that requests a third transition without vetoing
+static void body_history_rounds(unsigned cfg, int d1, int d2, int guard_state, int d3) {
+  CONFIGURED(a, cfg);
+  Instance r(g_rng); copy_configuration(r, a);
+  g_sub_guard = guard_state; g_sub_is_entry = true; g_sub_dest = d3; g_sub_nocancel = true;
+  call_queued(a, 0, d1); call_queued(a, 0, d2);
+  g_issuer = -1; g_issuer2 = -1;
+  a.update();
+  VASSERT(C01, inv_config(a) && inv_quiescent(a), "the configuration is well-formed after the step");
+  const auto& hist = a.previousTransitions();
+  if (g_sub_done) {
+    VREACH("two approved rounds in one step");
+    VASSERT(C09, hist.count() == 3, "the history holds the requests of every approved round of the step");
+    if (hist.count() == 3) VASSERT(C09, hist[0].destination == (StateID) d1 && hist[1].destination == (StateID) d2 && hist[2].destination == (StateID) d3, "the history lists the applied requests in the order they were applied");
+  }
+  Snapshot after; snap(a, after);
+  sync_monitor(r); g_guards_forbidden = true;
+  if (hist.count()) r.replayTransitions(hist);
+  g_guards_forbidden = false;
+  VASSERT(C01, inv_config(r) && inv_quiescent(r), "the replica is well-formed after the replay");
+  for (int c = 0; c < VM_NC; ++c) VASSERT(C09, r._core.registry.compoActive[c] == after.active[c], "replaying a multi-round history reproduces the same active configuration");
 }
 static void body_history_enter() {
   Instance a(g_rng);
@@ -427,6 +453,34 @@ static void predraw_answers() {
   for (int s = 1; s < VM_NS; ++s) {
     g_rank_called[s] = true; g_rank_val[s] = nd_i8(); VASSUME(g_rank_val[s] >= 0 && g_rank_val[s] <= 1);
     g_util_called[s] = true; g_util_val[s] = nd_f32(); VASSUME(g_util_val[s] >= 0.0f && g_util_val[s] <= 1000.0f);
+  }
+}
+// utility of a state as the statement defines it: leaf = its own; nested composite region = head x the sub-state it would activate
+// (for a region resolved by utilize: its best sub-state); orthogonal region = head x mean of its sub-states
+static float spec_utility(int s);
+static int spec_best_child(int region) {
+  int best = -1; float bu = -1.0f;
+  for (int c = region + 1; c < VM_NS; ++c) if (VM_SPEC[c].parent == region) { const float u = spec_utility(c); if (u > bu) { bu = u; best = c; } }   // strict '>' keeps the first on ties
+  return best;
+}
+static float spec_utility(int s) {
+  if (VM_SPEC[s].kind == K_LEAF) return g_util_val[s];
+  if (VM_SPEC[s].kind == K_COMPO) { const int b = spec_best_child(s); return g_util_val[s] * (b >= 0 ? spec_utility(b) : 0.0f); }
+  float sum = 0.0f; for (int c = s + 1; c < VM_NS; ++c) if (VM_SPEC[c].parent == s) sum += spec_utility(c);
+  return g_util_val[s] * (sum / VM_SPEC[s].width);
+}
+static void body_utilize_nested(int region) {                   // utilize(region): every nested region entered resolves by utility too
+  ARBITRARY_ACTIVE(f);
+  predraw_answers();
+  call_immediate(f, 4, region);
+  post_invariant(f);
+  if (!g_round_cancelled) {
+    for (int r = region; r < VM_NS; ++r) {
+      if (VM_SPEC[r].kind != K_COMPO || !spec_is_ancestor_or_self(region, r) || !spec_active(f, r)) continue;
+      const Prong p = f._core.registry.compoActive[VM_SPEC[r].fork];
+      const int best = spec_best_child(r);
+      VASSERT(C12, best >= 0 && p == VM_SPEC[best].prong, "utilize activates, in the region and in every nested region it enters, the sub-state with the greatest utility (first on ties); a nested region counts head x chosen sub-state, an orthogonal one head x mean");
+    }
   }
 }
 static void body_utilize(int kind, int region) {              // kind: 4 = utilize(region), 0 = changeTo(region) for a region declared utilitarian
